@@ -86,4 +86,10 @@ META["C12"] = {
     "technique": "property-based testing (rapid); oracle: reference envelope-rule judge on wire bytes + reference signer/verifier + deep-dump immutability of caller inputs",
 }
 
+META["C14"] = {
+    "text": "Property-based round-trip testing over keys whose rare shapes are forced rather than hoped for: a pre-computed table of scalars whose public coordinates have leading zero bytes (probability 2^-8 / 2^-16 per random key), their negations, short private scalars and Ed25519 keys; the oracle is key equality after the full conversion chain, exact coordinate lengths read back with the reference parser, and signature interoperability with the reference verifier.",
+    "note": TRUST + " Known finding F7 (x = 0 points serialised with an empty x) is listed in known-findings.txt.",
+    "technique": "property-based testing (rapid) + enumerated table of boundary keys; oracle: round-trip equality, reference parser on the encoded key, reference verifier",
+}
+
 NOT_APPLICABLE = {}
